@@ -1,6 +1,7 @@
 """Tiny parser/evaluator for the C fragment the accessor generator emits.
 
 Statements:  [type] name = expr ;   name += expr ;   return expr ;   lvalue = value ;
+             if ( expr relop expr ) statement [else statement]   { statement* }
 Expressions: + * numbers identifiers parentheses, casts `(type)`, loads `*(T*)((char*) obj+E)`,
              array element `arr[k]`.
 Evaluation is over the abstract memory of the partial evaluator: `obj` is the base position, a
@@ -11,7 +12,7 @@ import re
 from .linear import Poly
 from .srcmodel import AnalysisError
 
-TOK = re.compile(r"\s*(?:(\d+)|([A-Za-z_][A-Za-z_0-9]*)|(\+=|[-+*/()=;\[\],{}]))")
+TOK = re.compile(r"\s*(?:(\d+)|([A-Za-z_][A-Za-z_0-9]*)|(\+=|<=|>=|==|!=|&&|\|\||[-+*/()=;\[\],{}<>!]))")
 TYPEWORDS = {"int64_t", "int32_t", "int16_t", "int8_t", "uint64_t", "uint32_t", "uint16_t", "uint8_t", "char", "double", "float", "void", "const", "unsigned", "signed", "long", "int", "short", "struct"}
 
 
@@ -157,8 +158,40 @@ class Parser:
             return n
         raise AnalysisError(f"cexpr: unexpected token {tk}")
 
+    def cond(self):
+        a = self.expr()
+        tk = self.peek()
+        if tk[0] == "op" and tk[1] in ("<", ">", "<=", ">=", "==", "!="):
+            self.eat()
+            b = self.expr()
+            return Node("cmp", tk[1], a, b)
+        return Node("cmp", "!=", a, Node("num", 0))
+
+    def block_or_statement(self):
+        if self.peek() == ("op", "{"):
+            self.eat()
+            out = []
+            while self.peek() != ("op", "}"):
+                out.append(self.statement())
+            self.eat("op", "}")
+            return out
+        return [self.statement()]
+
     def statement(self):
-        """returns (kind, ...) : decl/assign/augadd/return/store"""
+        """returns (kind, ...) : decl/assign/augadd/return/store/if"""
+        if self.peek() == ("id", "if") and self.peek(1) == ("op", "("):
+            self.eat()
+            self.eat("op", "(")
+            c = self.cond()
+            if self.peek()[0] == "op" and self.peek()[1] in ("&&", "||"):
+                raise AnalysisError("cexpr: compound condition")
+            self.eat("op", ")")
+            then = self.block_or_statement()
+            other = []
+            if self.peek() == ("id", "else"):
+                self.eat()
+                other = self.block_or_statement()
+            return ("if", c, then, other)
         if self.peek() == ("id", "return"):
             self.eat()
             e = self.expr()
@@ -204,12 +237,33 @@ def parse_body(text, typenames=()):
 class CEval:
     """evaluates parsed statements over the abstract memory; `obj` is the symbolic base position"""
 
-    def __init__(self, mem, base, env=None):
+    def __init__(self, mem, base, env=None, allow_early=False):
         self.mem = mem
         self.base = base  # Poly
         self.env = dict(env or {})
         self.loads = []  # (ctype, addr poly) in order
         self.trace = []
+        # conditional exits whose condition the abstract state does not decide: (condition text, outcome).  A caller
+        # that does not ask for them gets "not decided" (AnalysisError), never a silent pass
+        self.allow_early = allow_early
+        self.early = []
+
+    def decide(self, c):
+        """True / False / None (not decided by the abstract state).  The positions of the zoo are symbolic, so the
+        SIGN of a stored relative offset is open (a member may lie before or behind the slot that refers to it); a
+        live word is never the null encoding (|relative offset| < capacity << 2**62)."""
+        op, a, b = c.a[0], self.ev(c.a[1]), self.ev(c.a[2])
+        if not (isinstance(a, Poly) and isinstance(b, Poly)):
+            raise AnalysisError("cexpr: comparison of pointers")
+        d = a - b
+        k = d.const_value() if d.is_const() else None
+        if k is not None:
+            return {"<": k < 0, ">": k > 0, "<=": k <= 0, ">=": k >= 0, "==": k == 0, "!=": k != 0}[op]
+        if op in ("==", "!="):
+            for x, y in ((a, b), (b, a)):
+                if x.is_const() and abs(x.const_value()) >= 2**62 and not y.is_const():
+                    return op == "!="
+        return None
 
     def ev(self, n):
         k = n.kind
@@ -276,6 +330,34 @@ class CEval:
     def run(self, stmts):
         """returns ('return', value) or None; records offset history"""
         for st in stmts:
+            if st[0] == "if":
+                _, c, then, other = st
+                d = self.decide(c)
+                if d is not None:
+                    r = self.run(then if d else other)
+                    if r is not None:
+                        return r
+                    continue
+                if not self.allow_early:
+                    raise AnalysisError(f"cexpr: the condition {c} is not decided by the abstract state")
+                # not decided: an arm that LEAVES the function is recorded as a conditional exit and the evaluation
+                # goes on along the other arm; two arms that both go on would need a join of states (not supported)
+                arms = []
+                for arm in (then, other):
+                    sub = CEval(self.mem, self.base, self.env, allow_early=True)
+                    arms.append((sub, sub.run(arm) if arm else None))
+                leaving = [i for i, (_, r) in enumerate(arms) if r is not None]
+                if len(leaving) == 2 or not leaving:
+                    if not leaving and not then and not other:
+                        continue
+                    raise AnalysisError(f"cexpr: undecided condition {c} with {'two leaving arms' if leaving else 'no leaving arm'}")
+                i = leaving[0]
+                self.early.append((("" if i == 0 else "not ") + _show(c), arms[i][1]))
+                self.early.extend(arms[i][0].early)
+                stay = arms[1 - i][0]
+                self.env, self.early = stay.env, self.early + stay.early
+                self.loads += stay.loads
+                continue
             if st[0] == "decl":
                 _, ty, name, e = st
                 self.env[name] = self.ev(e)
@@ -306,6 +388,24 @@ class CEval:
                 self.trace.append(("return", v))
                 return ("return", v)
         return None
+
+
+def _show(n):
+    if n.kind == "cmp":
+        return f"{_show(n.a[1])} {n.a[0]} {_show(n.a[2])}"
+    if n.kind == "num":
+        return str(n.a[0])
+    if n.kind == "id":
+        return n.a[0]
+    if n.kind in ("add", "sub", "mul", "div"):
+        return f"({_show(n.a[0])} {dict(add='+', sub='-', mul='*', div='/')[n.kind]} {_show(n.a[1])})"
+    if n.kind == "deref":
+        return "*" + _show(n.a[0])
+    if n.kind == "cast":
+        return f"({n.a[0]}){_show(n.a[1])}"
+    if n.kind == "neg":
+        return "-" + _show(n.a[0])
+    return n.kind
 
 
 def _width(ptype):
